@@ -30,8 +30,8 @@ SAN_OFF = '-fno-sanitize=vptr,alignment,nonnull-attribute'
 FLAVOURS = {
     # ASan + UBSan, vector annotations so reads in [size, capacity) are caught too
     'asan': dict(cxx='g++', flags=['-O1', '-fsanitize=address,undefined', SAN_OFF, '-fno-sanitize-recover=all',
-                                   '-D_GLIBCXX_SANITIZE_VECTOR'], ld=['-fsanitize=address,undefined']),
-    'tsan': dict(cxx='g++', flags=['-O1', '-fsanitize=thread'], ld=['-fsanitize=thread', '-pthread']),
+                                   '-D_GLIBCXX_SANITIZE_VECTOR'], ld=[]),  # the compile flags (which also reach the link step) already select the runtimes
+    'tsan': dict(cxx='g++', flags=['-O1', '-fsanitize=thread'], ld=['-pthread']),
     'plain0': dict(cxx='g++', flags=['-O1', '-ftrivial-auto-var-init=zero'], ld=['-rdynamic', '-ldl']),
     'plainP': dict(cxx='g++', flags=['-O1', '-ftrivial-auto-var-init=pattern'], ld=['-rdynamic', '-ldl']),
     'fuzz': dict(cxx='clang++', flags=['-O1', '-fsanitize=fuzzer-no-link,address,undefined',
@@ -142,7 +142,7 @@ def build_driver(flavour, driver, extra_flags=(), extra_ld=(), jobs=16):
     fl = FLAVOURS[flavour]
     d, objs = build_lib(flavour, jobs)
     src = os.path.join(HARNESS, driver + '.cpp')
-    hh = hashlib.sha256((harness_hash([src]) + ' '.join(extra_flags) + ' '.join(extra_ld)).encode()).hexdigest()[:12]
+    hh = hashlib.sha256((harness_hash([src]) + ' '.join(COMMON + fl['flags'] + fl['ld']) + ' '.join(extra_flags) + ' '.join(extra_ld)).encode()).hexdigest()[:12]
     exe = os.path.join(d, '%s-%s' % (driver, hh))
     with Lock('drv-%s-%s' % (flavour, driver)):
         if os.path.exists(exe):
